@@ -118,7 +118,8 @@ class Run:
         """a plan-named garbage collection point (knob gc_every: 0 = never, k = before every k-th step)"""
         k = self.knobs.get("gc_every", 0)
         if k and si % k == 0:
-            world.gc_point()
+            u = core.unit(self.sim.net_seed, "gc-generation", si)
+            world.gc_point(0 if u < 0.5 else 1 if u < 0.7 else 2)
             self.sim.count("gc_point")
 
     def finish(self):
@@ -323,6 +324,8 @@ class ClientHost:
     async def _net_op(self, sid, which, arg, fresh, keep):
         async def op():
             s = self._svc(sid, fresh)
+            if keep:
+                self.obj = s  # a long-lived application keeps its object also when the operation fails
             box = []
 
             def cb(fut):
